@@ -3,6 +3,7 @@
 package main
 
 import (
+	"os"
 	"encoding/binary"
 	"encoding/json"
 	"fmt"
@@ -72,9 +73,13 @@ func c20Oracle(c *ev.Ctx, k c20Case, s *sched.Scheduler, waiterThread []int, rel
 	for i, code := range k.Waiters {
 		reg := -1
 		must, may := false, false
+		lastReq := map[int]int{} // level 2: code of the request each serving thread received last
 		for idx, e := range s.Trace {
 			if cleanupFrom >= 0 && idx >= cleanupFrom {
 				break
+			}
+			if e.Kind == "request-received" {
+				lastReq[e.Thread] = reqCode(e)
 			}
 			if e.Kind == "cond-register" && e.Thread == waiterThread[i] && reg < 0 {
 				reg = idx
@@ -84,7 +89,12 @@ func c20Oracle(c *ev.Ctx, k c20Case, s *sched.Scheduler, waiterThread []int, rel
 			}
 			if reg >= 0 && idx > reg {
 				if e.Kind == "cond-broadcast" && condCode(e.Obj) == code {
-					may = true
+					// level 1: the broadcast IS the request; level 2: the broadcast justifies a release only when the
+					// serving thread performs it for a request of this very code (a request of another code that wakes
+					// this condition is exactly what must not happen)
+					if lr, ok := lastReq[e.Thread]; reqKind == "cond-broadcast" || (ok && lr == code) {
+						may = true
+					}
 				}
 				if e.Kind == reqKind && reqCode(e) == code {
 					must = true
@@ -373,7 +383,9 @@ func c20Explore(c *ev.Ctx, k c20Case, bound int, dev ...int) {
 	}, func(*sched.Scheduler) bool { return c.Violations() < 5 }, func() bool { return c.Expired("C20 exploration") })
 	c.AddCov("states", int64(execs))
 	c.AddCov("traces_validated_against_impl", int64(execs))
-	c.ShardInfo(map[string]any{"scenario": fmt.Sprintf("L%d waiters=%v senders=%v", k.Level, k.Waiters, k.Senders), "preemption_bound": bound, "deviation_bound": devBound, "executions": execs, "complete": complete})
+	if k.Note != "sweep" {
+		c.ShardInfo(map[string]any{"scenario": fmt.Sprintf("L%d waiters=%v senders=%v", k.Level, k.Waiters, k.Senders), "preemption_bound": bound, "deviation_bound": devBound, "executions": execs, "complete": complete})
+	}
 	if !complete {
 		c.Cap(fmt.Sprintf("scenario %v/%v cut short", k.Waiters, k.Senders))
 	}
@@ -392,7 +404,7 @@ func traceString(s *sched.Scheduler, max int) string {
 }
 
 func checkC20(c *ev.Ctx) {
-	c.Rule("engine E2 on the real shimagent.Server (Wait/Broadcast) and the real yubiagent server: level 1 = W waiter threads + S broadcaster threads over codes {5,11,39,40,255}: every assignment for (W,S) in {(1,1),(2,1),(1,2)} with all interleavings (unbounded), (2,2),(3,1),(3,2) over codes {5,11} with preemption bound 2 (thorough 3); level 2 = clients on scheduler-visible pipes, one ServeAgent thread per connection, waiters send wait requests and senders send list/add-hardware-certificate/wait/remove-all requests (two scenarios with a further connection whose signature request hangs in the underlying agent for ever, holding the shim's lock), preemption bound 2 and at most 3 departures from the canonical lowest-id-first order at any branch (thorough: 3 and 4); level 2 also with a thread that uses the server's shim object directly (6 call sequences of lock / unlock / close / remove-all incl. refused ones) while clients wait; level 3 = all 256 codes sequentially. Oracle on the recorded trace: released => a broadcast of that code after registration; a matching request after registration => released; codes >= 40 never register; after a clean-up broadcast every thread finishes. states = executions (complete interleavings), transitions = scheduling events. non-trivial = execution in which a waiter registered; distinct by (scenario, schedule)")
+	c.Rule("engine E2 on the real shimagent.Server (Wait/Broadcast) and the real yubiagent server: level 1 = W waiter threads + S broadcaster threads over codes {5,11,39,40,255}: every assignment for (W,S) in {(1,1),(2,1),(1,2)} with all interleavings (unbounded), (2,2),(3,1),(3,2) over codes {5,11} with preemption bound 2 (thorough 3); level 2 = clients on scheduler-visible pipes, one ServeAgent thread per connection, waiters send wait requests and senders send list/add-hardware-certificate/wait/remove-all requests (two scenarios with a further connection whose signature request hangs in the underlying agent for ever, holding the shim's lock), preemption bound 2 and at most 3 departures from the canonical lowest-id-first order at any branch (thorough: 3 and 4); level 2 also as a complete sweep awaited code 0..39 x other request code 0..40,255 in canonical order, and with a thread that uses the server's shim object directly (6 call sequences of lock / unlock / close / remove-all incl. refused ones) while clients wait; level 3 = all 256 codes sequentially. Oracle on the recorded trace: released => a broadcast of that code after registration; a matching request after registration => released; codes >= 40 never register; after a clean-up broadcast every thread finishes. states = executions (complete interleavings), transitions = scheduling events. non-trivial = execution in which a waiter registered; distinct by (scenario, schedule)")
 	c.Assume("condition variable i of the shim belongs to message code i (ids are assigned in creation order; checked by the registers-on-wrong-code oracle)", "vsync.Cond has the semantics of sync.Cond without spurious wake-ups (litmus-tested)")
 	if c.ReplayCase != nil {
 		var k c20Case
@@ -407,6 +419,9 @@ func checkC20(c *ev.Ctx) {
 		} else {
 			s, wt, rel, cf, _ = c20Level2(k, k.Schedule)
 			reqKind = "request-received"
+		}
+		if os.Getenv("VERIF_TRACE") != "" {
+			fmt.Fprintln(os.Stderr, "released:", rel, "cleanupFrom:", cf, "\ntrace:", traceString(s, 200))
 		}
 		if key, desc := c20Oracle(c, k, s, wt, rel, reqKind, cf); key != "" {
 			c.Violation(key, desc+"\n  trace "+traceString(s, 80), k)
@@ -500,6 +515,26 @@ func checkC20(c *ev.Ctx) {
 	for _, direct := range [][]string{{"Lock", "Close"}, {"Lock", "RemoveAll", "UnlockWrong"}, {"Lock", "Unlock"}, {"Close"}, {"RemoveAll", "List"}, {"Lock", "Add", "Close", "Unlock"}} {
 		c20Explore(c, c20Case{Level: 2, Waiters: []int{11}, Direct: direct}, 1, d2)
 		c20Explore(c, c20Case{Level: 2, Waiters: []int{22, 19}, Direct: direct}, 1, d2)
+	}
+	// two-dimensional sweep through the serving loop: every awaited code 0..39 against every OTHER request code 0..40 and
+	// 255, canonical order (the waiter registers, then the request arrives): a request releases exactly the waiters of its
+	// own code - a table that maps one code onto another shows only for that one pair
+	{
+		others := []int{255}
+		for r := 0; r <= 40; r++ {
+			others = append(others, r)
+		}
+		nsw := 0
+		for w := 0; w < 40; w++ {
+			for _, r := range others {
+				if r == w || r == 35 {
+					continue // 35 is the wait request itself (it would block its own connection)
+				}
+				c20Explore(c, c20Case{Level: 2, Waiters: []int{w}, Senders: []int{r}, Note: "sweep"}, 0, 0)
+				nsw++
+			}
+		}
+		c.Set("level2_code_pair_sweep", nsw)
 	}
 	c.Set("phase_level2_s", time.Since(t0).Seconds())
 	c.Sample(c20Case{Level: 2, Waiters: []int{35}, Senders: []int{35}, Bound: b2})
